@@ -317,7 +317,7 @@ pub fn run(prop: &'static str, tier: Tier, seed: u64) -> i32 {
         coverage["exhaustive"] = json!(exhaustive && pi["exhaustive"].as_bool().unwrap_or(false));
         coverage["second_feature_build"] = pi.clone();
         total_violations += pi["violations"].as_i64().unwrap_or(0) as i32;
-    } else if matches!(prop, "C05" | "C11") {
+    } else if matches!(prop, "C05" | "C10" | "C11") {
         coverage["second_feature_build"] = json!("not run (the no_std build is driven by ./check)");
     }
     let new_violations_total = total_violations;
